@@ -78,6 +78,11 @@ pub fn c01(a: &Args) {
         if s != want.to_string() { out.fail("stream-count", &file.text(), "count", &s, &want.to_string()); }
         if d.number_of_variables != file.n { out.fail("feature-count", &file.text(), "number_of_variables", &d.number_of_variables.to_string(), &file.n.to_string()); }
         out.circuit(&export_nodes(&d), &circuit_line(&d));
+        // the model loaders run on the text of the file and must produce the same array, node by node
+        match file.fmt {
+            crate::gen::Fmt::D4 => out.query("d4load", &format!("{} | {}", file.n, file.lines.join(" / ")), &crate::persist_props::export_flat(&d)),
+            crate::gen::Fmt::C2d => out.query("c2dload", &format!("| {}", file.lines.join(" / ")), &crate::persist_props::export_flat(&d)),
+        }
         if file.n <= 10 { out.query("tt", "", &tt.to_string01()); }
         out.query("counts", "", &d.nodes.iter().map(|n| n.count.to_string()).collect::<Vec<_>>().join(" "));
         out.sample(format!("{} | n={} | {} -> count {}", file.origin, file.n, file.lines.join(" / "), got));
@@ -98,6 +103,13 @@ fn corpus_c01(a: &Args, out: &mut Out) {
                 out.count("corpus_models", 1);
                 if path.contains("auto1") { auto1.push(d.rc().to_string()); }
                 out.circuit(&export_nodes(&d), &circuit_line(&d));
+                if d.nodes.len() < 3000 {
+                    let text: Vec<String> = std::fs::read_to_string(&path).unwrap_or_default().lines().map(|l| l.trim().to_string()).filter(|l| !l.is_empty()).collect();
+                    match tf {
+                        Some(t) => out.query("d4load", &format!("{} | {}", t, text.join(" / ")), &crate::persist_props::export_flat(&d)),
+                        None => out.query("c2dload", &format!("| {}", text.join(" / ")), &crate::persist_props::export_flat(&d)),
+                    }
+                }
             }
             Err(e) => out.fail("load-panic", &path, "build_ddnnf", &e, "a loaded model"),
         }
